@@ -1,1 +1,109 @@
-// Correspondence suites for property C11. Each suite is a #[test] fn named verif_c11_<suite>.
+// Correspondence suites for property C11 (duplicate report detection).
+//   verif_c11_pure (here): UniqueTag::shard_picker, UniqueTagValidator sequences / batches
+//   verif_c11_path (harness/hooks/runner.rs): the real reshard_aad + validator under TestWorld with shards
+//
+// Request grammar
+//   c11.pick <tag: 32 hex digits = the 16 tag bytes> <n>     -> shard index | panic:…
+//   c11.seq <t,t,…>     one check_duplicate call per tag (decimal u128) -> ok|dup:<counter> per call
+//   c11.batch <t,t,…>   one check_duplicates call                        -> ok | dup:<counter>
+use super::proto::*;
+use crate::{
+    error::Error,
+    report::hybrid::{UniqueBytes, UniqueTag, UniqueTagValidator},
+    sharding::ShardIndex,
+};
+
+pub struct RawTag(pub [u8; 16]);
+
+impl UniqueBytes for RawTag {
+    fn unique_bytes(&self) -> [u8; 16] {
+        self.0
+    }
+}
+
+pub fn tag_of(v: u128) -> UniqueTag {
+    UniqueTag::from_unique_bytes(&RawTag(v.to_le_bytes()))
+}
+
+fn verdict(r: Result<(), Error>) -> String {
+    match r {
+        Ok(()) => "ok".into(),
+        Err(Error::DuplicateBytes(k)) => format!("dup:{k}"),
+        Err(e) => format!("err:{}", canon(&format!("{e:?}"))),
+    }
+}
+
+pub fn exec(req: &str) -> String {
+    let t: Vec<&str> = req.split(' ').collect();
+    match t[0] {
+        "c11.pick" => {
+            let b = unhex(t[1]);
+            let mut a = [0u8; 16];
+            a.copy_from_slice(&b);
+            let n: u32 = t[2].parse().unwrap();
+            let tag = UniqueTag::from_unique_bytes(&RawTag(a));
+            u32::from(tag.shard_picker(ShardIndex::from(n))).to_string()
+        }
+        "c11.seq" => {
+            let tags = parse_nat_list::<u128>(t[1]);
+            let mut v = UniqueTagValidator::new(tags.len());
+            tags.iter().map(|x| verdict(v.check_duplicate(&tag_of(*x)))).collect::<Vec<_>>().join(",")
+        }
+        "c11.batch" => {
+            let tags: Vec<UniqueTag> = parse_nat_list::<u128>(t[1]).into_iter().map(tag_of).collect();
+            let mut v = UniqueTagValidator::new(tags.len());
+            verdict(v.check_duplicates(&tags))
+        }
+        _ => panic!("harness: unknown request {req}"),
+    }
+}
+
+pub fn boundary_tags() -> Vec<u128> {
+    let mut v = vec![0u128, 1, 2, 3, 4, 5, 6, 59, 60, 61, u128::MAX, u128::MAX - 1, u128::MAX - 4];
+    for j in [7u32, 8, 31, 32, 33, 63, 64, 65, 96, 127] {
+        for d in [-1i128, 0, 1] {
+            v.push(((1u128 << j) as i128).wrapping_add(d) as u128);
+        }
+    }
+    v.sort_unstable();
+    v.dedup();
+    v
+}
+
+pub fn generate(rng: &mut Rng, thorough: bool) -> Vec<String> {
+    let mut v = Vec::new();
+    let mut tags = boundary_tags();
+    for _ in 0..(if thorough { 400 } else { 40 }) {
+        tags.push(rng.next_u128());
+    }
+    for t in &tags {
+        for n in [1u32, 2, 3, 4, 5, 7, 255, 256, 65537, u32::MAX - 1, u32::MAX] {
+            v.push(format!("c11.pick {} {n}", hex(&t.to_le_bytes())));
+        }
+    }
+    v.push(format!("c11.pick {} 0", hex(&5u128.to_le_bytes())));
+    // validator sequences: empty, single, immediate repeat, repeat at the end, many repeats, all equal
+    let seqs: Vec<Vec<u128>> = vec![
+        vec![], vec![0], vec![0, 0], vec![1, 2, 3, 1], vec![1, 2, 3, 3], vec![u128::MAX, 0, u128::MAX],
+        vec![5; 6], vec![1, 2, 1, 2, 3, 3], (0..40).collect(), (0..40).chain(std::iter::once(17)).collect(),
+        vec![1 << 64, 1, (1 << 64) + 1, 1 << 64],
+    ];
+    for s in &seqs {
+        v.push(format!("c11.seq {}", nat_list(s)));
+        v.push(format!("c11.batch {}", nat_list(s)));
+    }
+    for _ in 0..(if thorough { 2000 } else { 200 }) {
+        let len = rng.usize_below(30);
+        let dom = 1 + rng.below(40) as u128;
+        let wide = rng.bool();
+        let s: Vec<u128> = (0..len).map(|_| if wide && rng.below(3) == 0 { rng.next_u128() } else { u128::from(rng.below(dom as u64)) << (if wide { 64 } else { 0 }) }).collect();
+        v.push(format!("c11.seq {}", nat_list(&s)));
+        v.push(format!("c11.batch {}", nat_list(&s)));
+    }
+    v
+}
+
+#[test]
+fn verif_c11_pure() {
+    run_suite("c11_pure", generate, exec);
+}
